@@ -509,18 +509,22 @@ class StmtMixin:
                     f2 = ast.copy_location(ast.For(target=n.target, iter=d.value, body=n.body, orelse=[]), n)
                     out.extend(self._desugared_for(f2, st, fx) or [f2])
                 return out
-        if isinstance(it, ast.Call) and not it.keywords and not it.args and isinstance(it.func, ast.Attribute) and isinstance(it.func.value, ast.Name) \
-                and it.func.value.id == "self" and fx.cls is not None:
+        if isinstance(it, ast.Call) and not it.keywords and isinstance(it.func, ast.Attribute) and isinstance(it.func.value, ast.Name) \
+                and it.func.value.id == "self" and fx.cls is not None \
+                and all(not any(isinstance(y, (ast.Call, ast.Lambda, ast.NamedExpr, ast.Starred, ast.Await)) for y in ast.walk(a_)) for a_ in it.args):
             # for x in self._helper(): where the helper only names a few things and returns an iterable expression (a chain of the windows'
             # values, a generator expression over a tuple of registries): the loop over that expression, the helper's locals renamed
             cls = self.class_of(fx.selfterm) or fx.cls
             m = self.prog.lookup_method(cls, it.func.attr)
-            if m is not None and not m.is_generator and m.module is fx.func.module and m.params == ["self"] and not m.is_property:
+            hparams = [] if m is None else (list(m.params) if m.is_static else list(m.params[1:]))
+            if m is not None and not m.is_generator and m.module is fx.func.module and not m.is_property and not getattr(m, "is_classmethod", False) \
+                    and (m.is_static or m.params[:1] == ["self"]) and len(hparams) == len(it.args) and not m.defaults:
                 hb = [x for x in m.node.body if not (isinstance(x, ast.Expr) and isinstance(x.value, ast.Constant))]
 
                 def plain(v):
                     return not any(isinstance(y, (ast.Call, ast.Lambda, ast.GeneratorExp, ast.ListComp, ast.NamedExpr, ast.Await, ast.Yield)) for y in ast.walk(v))
-                if hb and isinstance(hb[-1], ast.Return) and hb[-1].value is not None and isinstance(hb[-1].value, (ast.Call, ast.GeneratorExp, ast.Tuple, ast.List)) \
+                if hb and isinstance(hb[-1], ast.Return) and hb[-1].value is not None \
+                        and isinstance(hb[-1].value, (ast.Call, ast.GeneratorExp, ast.Tuple, ast.List, ast.ListComp)) \
                         and all(isinstance(x, ast.Assign) and len(x.targets) == 1 and plain(x.value)
                                 and (isinstance(x.targets[0], ast.Name) or (isinstance(x.targets[0], ast.Tuple) and all(isinstance(e, ast.Name) for e in x.targets[0].elts)))
                                 for x in hb[:-1]) \
@@ -528,7 +532,7 @@ class StmtMixin:
                             (hb[-1].value.func.attr if isinstance(hb[-1].value.func, ast.Attribute) else getattr(hb[-1].value.func, "id", None))
                             in ("chain", "from_iterable", "iter", "reversed", "list", "tuple"))):
                     import copy as _copy
-                    names = {y.id for x in hb for y in ast.walk(x) if isinstance(y, ast.Name) and isinstance(y.ctx, ast.Store)}
+                    names = {y.id for x in hb for y in ast.walk(x) if isinstance(y, ast.Name) and isinstance(y.ctx, ast.Store)} | set(hparams)
                     names |= {g.id for y in ast.walk(hb[-1].value) if isinstance(y, ast.comprehension) for g in ast.walk(y.target) if isinstance(g, ast.Name)}
 
                     class Ren(ast.NodeTransformer):
@@ -536,7 +540,10 @@ class StmtMixin:
                             if y.id in names:
                                 return ast.copy_location(ast.Name(id="__%s_%s" % (m.name, y.id), ctx=y.ctx), y)
                             return y
-                    pre = [ast.copy_location(Ren().visit(_copy.deepcopy(x)), n) for x in hb[:-1]]
+                    # (the helper's parameters: locals of the same renamed kind, bound to the argument expressions - plain reads - first)
+                    pre = [ast.copy_location(ast.Assign(targets=[ast.Name(id="__%s_%s" % (m.name, p_), ctx=ast.Store())], value=a_), n)
+                           for p_, a_ in zip(hparams, it.args)]
+                    pre += [ast.copy_location(Ren().visit(_copy.deepcopy(x)), n) for x in hb[:-1]]
                     f2 = ast.copy_location(ast.For(target=n.target, iter=Ren().visit(_copy.deepcopy(hb[-1].value)), body=n.body, orelse=n.orelse), n)
                     for x in pre + [f2]:
                         ast.fix_missing_locations(x)
@@ -562,6 +569,41 @@ class StmtMixin:
                     ast.copy_location(x, n)
             ast.fix_missing_locations(outer)
             return [outer]
+        if isinstance(it, ast.Call) and not it.keywords and len(it.args) == 2 and not n.orelse \
+                and (getattr(it.func, "id", None) == "islice" or getattr(it.func, "attr", None) == "islice") \
+                and isinstance(it.args[0], ast.Call) and isinstance(it.args[0].func, ast.Name) and it.args[0].func.id == "iter" \
+                and len(it.args[0].args) == 2 and not it.args[0].keywords and isinstance(n.target, ast.Name):
+            # for x in islice(iter(f, sentinel), N): BODY   ->   for _ in range(N): x = f(); if x is/== sentinel: break; BODY
+            f_, sent = it.args[0].args
+            cnt = "__islice_turn_%d" % n.lineno
+            call = ast.Call(func=f_, args=[], keywords=[])
+            asg = ast.Assign(targets=[ast.Name(id=n.target.id, ctx=ast.Store())], value=call)
+            test = ast.Compare(left=ast.Name(id=n.target.id, ctx=ast.Load()),
+                               ops=[ast.Is() if isinstance(sent, ast.Constant) and sent.value is None else ast.Eq()], comparators=[sent])
+            brk = ast.If(test=test, body=[ast.Break()], orelse=[])
+            rng = ast.Call(func=ast.Name(id="range", ctx=ast.Load()), args=[it.args[1]], keywords=[])
+            f2 = ast.For(target=ast.Name(id=cnt, ctx=ast.Store()), iter=rng, body=[asg, brk] + list(n.body), orelse=[])
+            ast.copy_location(f2, n)
+            for x in ast.walk(f2):
+                if not hasattr(x, "lineno"):
+                    ast.copy_location(x, n)
+            ast.fix_missing_locations(f2)
+            return [f2]
+        if isinstance(it, ast.Call) and not it.keywords and len(it.args) == 2 and not n.orelse \
+                and (getattr(it.func, "id", None) == "islice" or getattr(it.func, "attr", None) == "islice"):
+            # for x in islice(XS, N): BODY   ->   k = 0; for x in XS: if k >= N: break; k += 1; BODY      (at most N elements of XS)
+            cnt = "__islice_count_%d" % n.lineno
+            init = ast.Assign(targets=[ast.Name(id=cnt, ctx=ast.Store())], value=ast.Constant(value=0))
+            stop = ast.If(test=ast.Compare(left=ast.Name(id=cnt, ctx=ast.Load()), ops=[ast.GtE()], comparators=[it.args[1]]), body=[ast.Break()], orelse=[])
+            step = ast.AugAssign(target=ast.Name(id=cnt, ctx=ast.Store()), op=ast.Add(), value=ast.Constant(value=1))
+            f2 = ast.For(target=n.target, iter=it.args[0], body=[stop, step] + list(n.body), orelse=[])
+            for x in (init, f2):
+                ast.copy_location(x, n)
+                for y in ast.walk(x):
+                    if not hasattr(y, "lineno"):
+                        ast.copy_location(y, n)
+                ast.fix_missing_locations(x)
+            return [init] + (self._desugared_for(f2, st, fx) or [f2])
         if isinstance(it, ast.Call) and not it.keywords and not any(isinstance(a, ast.Starred) for a in it.args):
             nm = it.func.attr if isinstance(it.func, ast.Attribute) else (it.func.id if isinstance(it.func, ast.Name) else None)
             if nm == "chain" and it.args and not n.orelse and not any(isinstance(x, (ast.Break,)) for b in n.body for x in ast.walk(b)):
